@@ -132,7 +132,8 @@ def depth1(P, leaves):
 
 
 def depth2(P, leaves):
-    inner = [p for p in depth1(P, leaves)]
+    # number-valued programs (a bare coefficient) are roots only: the statement speaks of operators between multivector-valued subexpressions
+    inner = [p for p in depth1(P, leaves) if 'coeff-result' not in p.feats]
     for tmpl, ar, f, g in P:
         for q in inner:
             if ar == 1:
@@ -150,9 +151,13 @@ def random_prog(rng, P, leaves, depth):
     if g == 2 and rng.random() < 0.6:
         tmpl, ar, f, g = rng.choice(P)
     x = random_prog(rng, P, leaves, depth - 1)
+    while 'coeff-result' in x.feats:
+        x = random_prog(rng, P, leaves, depth - 1)
     if ar == 1:
         return Prog(instantiate(tmpl, {'x': x.expr}), 0, max(g, x.grammar), set(f) | set(x.feats), depth)
     y = random_prog(rng, P, leaves, rng.randint(0, depth - 1))
+    while 'coeff-result' in y.feats:
+        y = random_prog(rng, P, leaves, rng.randint(0, depth - 1))
     if rng.random() < 0.5:
         x, y = y, x
     return Prog(instantiate(tmpl, {'x': x.expr, 'y': y.expr}), 0, max(g, x.grammar, y.grammar),
